@@ -5,6 +5,7 @@ package main
 
 import (
 	"encoding/json"
+	"go/types"
 	"fmt"
 	"os"
 	"path/filepath"
@@ -45,6 +46,10 @@ const logicPrelude = "(set-option :produce-models true)\n"
 // string is longer than 2^40 bytes; display width is at most twice the byte length).
 const strAxioms = `(assert (forall ((s Str)) (! (and (>= (dw s) 0) (<= (dw s) (* 2 (slen s)))) :pattern ((dw s)))))
 (assert (forall ((s Str)) (! (and (>= (slen s) 0) (<= (slen s) 1099511627776)) :pattern ((slen s)))))
+`
+
+const concatAxioms = `(assert (forall ((s Str)) (! (= (sconcat s str!empty) s) :pattern ((sconcat s str!empty)))))
+(assert (forall ((s Str)) (! (= (sconcat str!empty s) s) :pattern ((sconcat str!empty s)))))
 `
 
 func obligationScript(ob *Obligation, wantModel bool) string {
@@ -555,6 +560,7 @@ func uniq(in []string) []string {
 func (P *Program) lemmaObligation(l *Lemma) *Obligation {
 	x := &Exec{P: P, inputs: map[string]string{}, params: map[string]Val{}, closedChain: map[string]*Term{}}
 	x.extUsed, x.uncontracted, x.trustedUsed, x.ifaceUsed = map[string]bool{}, map[string]bool{}, map[string]bool{}, map[string]bool{}
+	x.argTypes = map[string]types.Type{}
 	st := newState()
 	env := &Env{x: x, st: st, old: st, binds: map[string]specBinding{}, mode: "lemma"}
 	for _, p := range P.Pkgs {
